@@ -18,6 +18,6 @@ echo "passing tests with patch: $(wc -l < /tmp/seed-$P-after.txt)"
 for v in "std,lfn,unicode" "std,alloc,lfn"; do cargo build --offline --no-default-features --features $v 2>&1 | grep -E "^error" | head -3; done
 echo "== my checks against the patched worktree"
 for c in $CHECKS; do
-  VERIF_REPO=$WT VERIF_TARGET=/tmp/seedtarget-$P VERIF_EVID=/tmp/seedtarget-$P/evid VERIF_REPLAYS=/tmp/seedtarget-$P/replays /verif/verif.py check $c 2>&1 | grep -vE "^\[build|^   minimised" | cut -c1-400 | head -12
+  VERIF_REPO=$WT VERIF_TARGET=/tmp/seedtarget-$P VERIF_EVID=/tmp/seedtarget-$P/evid VERIF_REPLAYS=/tmp/seedtarget-$P/replays /verif/verif.py check $c 2>&1 | grep -a -vE "^\[build|^   minimised" | cut -c1-400 | head -12
 done
 git checkout -q -- src
